@@ -5,7 +5,9 @@ from ..core import hx, unhx
 from . import progs, evalspec, speceval
 
 FN = ["f0", "f1", "f2", "f3"]          # context functions (handlers 10..13)
-GLOBALS = {"g0": 20, "g1": 21}         # globally registered functions (handlers 20, 21)
+# globally registered functions (handlers 20..23): two of their own, one whose name is ALSO bound to a context function (the
+# context's one shadows it: a call invokes exactly one of them) and one whose name is also a context variable (`w(..)` calls it)
+GLOBALS = {"g0": 20, "g1": 21, "f3": 22, "w": 23}
 HIDS = {"f0": 10, "f1": 11, "f2": 12, "f3": 13}
 
 def n(x): return ("n", Fraction(x))
@@ -57,7 +59,7 @@ def rnd_tree(rng, depth):
 class P:
     prop = "C07"
     rule = ("EXEC of random trees (<= ~40 nodes) whose leaves are calls to logging, stateful context functions (by call and by bare "
-            "name) and globally registered functions whose return values depend on their own call count, under every node kind and every "
+            "name) and globally registered functions whose return values depend on their own call count (one of them shadowed by a context function of the same name, one named like a context variable), under every node kind and every "
             "built-in operator, aggregate function and setter (membership lists written in place with matching items before calls), "
             "(operands, call arguments, list elements, map entries key/value, statements, conditionals), and the same trees with an "
             "Err injected at the k-th handler invocation for every k (fault enumeration). Oracle: the call log (handler, arguments) "
